@@ -33,7 +33,8 @@ func (e *Entry) from(b []byte) error {
 		return ErrCorruptedData
 	}
 	e.Type = b[0]
-	e.Value = b[1:]
+	// copy: the decoded value must not alias the caller's (storage-owned, recyclable) buffer
+	e.Value = append([]byte{}, b[1:]...)
 	return nil
 }
 
